@@ -44,7 +44,7 @@ def _prestate(m, n, ps):
         s = (C if i % 2 else S)("s%d" % i, m, priority=ps[i])
         q.append(s)
         m.systems.systems[s.id] = s
-    m.systems.execution_queue = list(q)
+    m.systems.execution_queue[:] = q          # (in place: the list object is the scheduler's own)
     return q
 
 
